@@ -552,6 +552,14 @@ class sptenmat:
         if isinstance(value, (int, float, np.floating)):
             value = value * np.ones((len(csubs) * len(rsubs), 1))
         value = np.asarray(value)
+        if value.size != len(rsubs) * len(csubs):
+            # (checked before anything is stored)
+            raise ValueError(
+                f"Expected one value or {len(rsubs) * len(csubs)} values "
+                f"(one per named position) but received {value.size}"
+            )
+        # One value per position, column by column
+        value = value.reshape((-1, 1), order="F")
 
         newsubs = []
         newvals = []
